@@ -465,10 +465,10 @@ func (s *BugState) Compare(o ObservedBug) []Mismatch {
 
 	// actors, participants
 	if d, dup := firstDup(o.Actors); dup {
-		add("actors-duplicate", "actor %s listed twice", d)
+		add("actors-duplicate", "actor %s listed twice in actors %v (authors that must be listed: %v)", d, o.Actors, s.MustActors)
 	}
 	if d, dup := firstDup(o.Participants); dup {
-		add("participants-duplicate", "participant %s listed twice", d)
+		add("participants-duplicate", "participant %s listed twice in participants %v (authors that must be listed: %v)", d, o.Participants, s.MustParticipants)
 	}
 	for _, p := range o.Participants {
 		if !contains(o.Actors, p) {
@@ -498,12 +498,12 @@ func (s *BugState) Compare(o ObservedBug) []Mismatch {
 	}
 	for _, a := range s.MustActors {
 		if !contains(o.Actors, a) {
-			add("actor-missing", "author %s of a state-changing operation is not an actor", a)
+			add("actor-missing", "author %s of a state-changing operation is not an actor: actors %v, authors of state-changing operations %v", a, o.Actors, s.MustActors)
 		}
 	}
 	for _, p := range s.MustParticipants {
 		if !contains(o.Participants, p) {
-			add("participant-missing", "author %s of a create/add-comment is not a participant", p)
+			add("participant-missing", "author %s of a create/add-comment is not a participant: participants %v, authors of create/add-comment %v", p, o.Participants, s.MustParticipants)
 		}
 	}
 
